@@ -302,6 +302,48 @@ Section Proofs.
     apply verify_part_iff in Hv. destruct Hv as [_ Hv]. exact Hv.
   Qed.
 
+  (* ---------- map versions ---------- *)
+
+  Lemma pcm_step_prefix (maps : list (list (Z * list (option addrT)))) (o : @pcm_op sigT addrT) :
+    exists extra, pcm_step maps o = maps ++ extra.
+  Proof.
+    destruct o as [from ch inact| |]; cbn.
+    - destruct (nth_error maps from); [eexists; reflexivity | exists []; symmetry; apply app_nil_r].
+    - exists []; symmetry; apply app_nil_r.
+    - exists []; symmetry; apply app_nil_r.
+  Qed.
+
+  Lemma pcm_versions_prefix (ops : list (@pcm_op sigT addrT)) : forall maps : list (list (Z * list (option addrT))),
+    exists extra, pcm_versions maps ops = maps ++ extra.
+  Proof.
+    unfold pcm_versions. induction ops as [|o r IH]; intro maps; cbn [fold_left].
+    - exists []; symmetry; apply app_nil_r.
+    - destruct (pcm_step_prefix maps o) as [e1 E]. rewrite E.
+      destruct (IH (maps ++ e1)) as [e2 E2]. rewrite E2.
+      exists (e1 ++ e2). symmetry; apply app_assoc.
+  Qed.
+
+  (* a version, once it exists, is the same map after any further history:
+     deriving the next map never changes what an older map contains *)
+  Theorem old_versions_unchanged (maps : list (list (Z * list (option addrT)))) (ops : list (@pcm_op sigT addrT)) i m :
+    nth_error maps i = Some m -> nth_error (pcm_versions maps ops) i = Some m.
+  Proof.
+    intro H. destruct (pcm_versions_prefix ops maps) as [extra ->].
+    rewrite nth_error_app1; [exact H|]. apply nth_error_Some. congruence.
+  Qed.
+
+  (* hence every verdict obtained from a version is obtained again later *)
+  Theorem verdicts_repeat (maps : list (list (Z * list (option addrT)))) (ops : list (@pcm_op sigT addrT)) o b :
+    pcm_answer addr_eqb recover maps o = Some b ->
+    pcm_answer addr_eqb recover (pcm_versions maps ops) o = Some b.
+  Proof.
+    destruct o as [from ch inact|on src h r dg pf|on ntid]; cbn; [discriminate| |].
+    - destruct (nth_error maps on) as [m|] eqn:Hm; [|discriminate].
+      rewrite (old_versions_unchanged maps ops on m Hm). auto.
+    - destruct (nth_error maps on) as [m|] eqn:Hm; [|discriminate].
+      rewrite (old_versions_unchanged maps ops on m Hm). auto.
+  Qed.
+
   (* ---------- proofContextMap.Verify ---------- *)
 
   (* the digests that have a proof context, with that context *)
